@@ -20,3 +20,8 @@ package name
 //@   ensures[hashed_sanctuary] old(n.IslandNumber) == 0 ==> forall i in 0..len(n.SanctuaryID): bytesat(ghost("hin_ref"), ghost("hin_off") + i) == n.SanctuaryID[i]
 //@   ensures[hashed_realm] old(n.IslandNumber) == 0 ==> forall i in 0..len(n.RealmName): bytesat(ghost("hin_ref"), ghost("hin_off") + len(n.SanctuaryID) + i) == n.RealmName[i]
 //@   ensures[hashed_swamp] old(n.IslandNumber) == 0 ==> forall i in 0..len(n.SwampName): bytesat(ghost("hin_ref"), ghost("hin_off") + len(n.SanctuaryID) + len(n.RealmName) + i) == n.SwampName[i]
+
+// Interface-level contract (assumed at call sites through the interface; the implementation
+// (*name).GetIslandID above is proved against the stronger concrete contract).
+//@ trusted func (Name).GetIslandID(n, allIslands) (r)
+//@   ensures allIslands >= 1 ==> 1 <= r && r <= allIslands
